@@ -383,7 +383,21 @@ def check(ctx):
     cells = build_matrix()
     r = ctx.fork("datasets")
     seeds = [r.randint(1, 2 ** 30) for _ in range(ctx.budget(1, 4) if not ctx.searching else 3)]
-    res = run_worker(cells, seeds)
+    try:
+        res = run_worker(cells, seeds)
+    except Exception as e:  # noqa - the fresh interpreter died (library import / unexpected exception): per-cell retry
+        ctx.note(f"matrix worker failed as a whole ({type(e).__name__}: {str(e)[-300:]}); retrying cell by cell")
+        res = {"filter_actions": [], "results": [], "same_instance_refit": None}
+        for c in cells:
+            try:
+                r1 = run_worker([c], seeds[:1], timeout=300)
+                res["results"] += r1["results"]
+                res["filter_actions"] = r1.get("filter_actions", res["filter_actions"])
+            except Exception as e1:  # noqa
+                ctx.disagree("matrix.worker", {"cell": cell_key(c)}, "call returns",
+                             f"worker died: {type(e1).__name__}: {str(e1)[-200:]}")
+            if len([d for d in ctx.disagreements if d["unit"] == "matrix.worker"]) >= 5:
+                break
     ctx.count("matrix_cells", len(cells))
     ctx.count("calls_observed", 2 * len(res["results"]))
     lines = [model_line(c) for c in cells] + ["filter always 2", "filter once 2", "filter default 2"]
